@@ -1,0 +1,21 @@
+//go:build verif
+
+// Verification contracts for package storage (comment-only; read by /verif/govc).
+// This file contains no executable code.
+
+package storage
+
+//@ spec func sortedIndex(entries []*IndexEntry) bool = (forall i int :: 0 <= i && i < len(entries) ==> entries[i] != nil) && (forall i int, j int :: 0 <= i && i < j && j < len(entries) ==> entries[i].Offset < entries[j].Offset)
+//@ spec func memberOf(entries []*IndexEntry, r *IndexEntry) bool = exists k int :: 0 <= k && k < len(entries) && r == entries[k]
+
+//@ func findIndexEntry
+//@   requires sortedIndex(entries)
+//@   ensures [C04.nonnil] result != nil
+//@   ensures [C04.member] len(entries) > 0 ==> memberOf(entries, result)
+//@   ensures [C03.at_or_before] len(entries) > 0 ==> (result == entries[0] || result.Offset <= offset)
+//@   ensures [C04.floor] len(entries) > 0 && entries[0].Offset <= offset ==> result.Offset <= offset && (forall j int :: 0 <= j && j < len(entries) && entries[j].Offset <= offset ==> entries[j].Offset <= result.Offset)
+//@   ensures [C04.floor_first] len(entries) > 0 && entries[0].Offset > offset ==> result == entries[0]
+//@   loop 1 invariant 0 <= lo && hi <= len(entries)-1 && lo <= hi+1
+//@   loop 1 invariant forall i int :: 0 <= i && i < lo ==> entries[i].Offset < offset
+//@   loop 1 invariant forall i int :: hi < i && i < len(entries) ==> entries[i].Offset > offset
+//@   loop 1 decreases hi - lo + 1
